@@ -14,7 +14,7 @@ import (
 func init() {
 	Registry["C13"] = C13
 	Metas["C13"] = Meta{
-		Explanation: "Decides the structural clauses of C13 on every CFG path of every lock-using function and every constant specialisation of its mode parameters: (L1) each bucket lock / resize mutex acquire is released on every return path and never re-acquired while held; (L2) nothing that can wait on another goroutine (second bucket lock, resize mutex, Cond.Wait, resize, channel op, visitor/evicted callback) is invoked while a bucket lock is held; (L3) on every path of the resize owner from the winning CAS to a return the flag is cleared and then broadcast, at least one of them under the waiters' mutex, and no non-owner path clears the flag; (L4) every Cond.Wait is preceded, in the same resizeMu critical section, by an atomic test of the flag; (L5) on every evaluated abstract path of every public cache method, while a read-modify-write closure runs (under the bucket lock) only the user's compute function is called - no evicted callback, no visitor, no other function value - and no further operation of the underlying map is issued. NOT decided: actual termination (spin-lock fairness, starvation of retry loops, bounded chains) and the behaviour of a blocking/re-entering valueFn (excluded by the property).",
+		Explanation: "Decides the structural clauses of C13 on every CFG path of every lock-using function and every constant specialisation of its mode parameters: (L1) each bucket lock / resize mutex acquire is released on every return path and never re-acquired while held, and a bucket lock is never taken on a local by-value copy of a bucket; (L2) nothing that can wait on another goroutine (second bucket lock, resize mutex, Cond.Wait, resize, channel op, visitor/evicted callback) is invoked while a bucket lock is held; (L3) on every path of the resize owner from the winning CAS to a return the flag is cleared and then broadcast, at least one of them under the waiters' mutex, and no non-owner path clears the flag; (L4) every Cond.Wait is preceded, in the same resizeMu critical section, by an atomic test of the flag; (L5) on every evaluated abstract path of every public cache method, while a read-modify-write closure runs (under the bucket lock) only the user's compute function is called - no evicted callback, no visitor, no other function value - and no further operation of the underlying map is issued. NOT decided: actual termination (spin-lock fairness, starvation of retry loops, bounded chains) and the behaviour of a blocking/re-entering valueFn (excluded by the property).",
 		Rule:        "one obligation per (rule, function, specialisation, exit or call site); non-trivial = verdict depended on at least one explored product-graph path or call site; minimum instance counts per role guard against vacuous passes",
 		Assumptions: []string{"sync.Mutex, sync.Cond and sync/atomic behave as documented", "lock helpers are recognised structurally (CAS v->v|1 dominating all returns; store of load&^1)", "user hasher functions are non-blocking leaves"},
 	}
@@ -153,6 +153,15 @@ func c13L1L2(r *Run, rep *core.Report) {
 								kind = "acquire"
 							}
 							c := fmt.Sprintf("%s %s(%s)", name, kind, ev.Key)
+							// the lock word of a by-value copy of a bucket (for _, b := range table.buckets { lock(&b.mu) }) is
+							// not the bucket's lock: it excludes nobody, and a copy taken while a writer holds the real lock
+							// carries the set lock bit for ever - the acquire spins without end
+							if ev.Acquire && ev.Class == "bucket" {
+								if cell, isCell := core.StripConv(ev.Root).(*ssa.Alloc); isCell && isBucketType(r, elemOf(cell.Type())) {
+									rep.Fail("C13.L1", c+" on a copy", r.P.InstrPos(in), "the bucket lock is taken on a local by-value copy of a bucket ("+cell.Name()+"): it excludes no writer, and if the copy was taken while the real lock was held the acquire never succeeds")
+									continue
+								}
+							}
 							if fds := bad[in]; len(fds) > 0 {
 								tag := Fail
 								_ = tag
